@@ -467,6 +467,23 @@ inline bool check(pbt::Case &c, Log &log, const CheckOpts &o)
     const std::size_t cb = it == ss.end() ? NONE : it->second.closeBegin;
     const std::size_t done = fanoutDone(ob.sid);
     const std::size_t copied = copyDone(ob.sid);
+    // first unobserve() of this observer issued from INSIDE the global callback of its own
+    // session's close (I/O thread, between onClose( and onClose) ): the observer list is read
+    // after the global callback, so it is still registered there - the call must succeed and
+    // the observer must stay silent
+    const std::size_t ce = it == ss.end() ? NONE : it->second.closeEnd;
+    const bool inGlobal = ob.unBegin != NONE && ob.unEnd != NONE && ev[ob.unBegin].io && cb != NONE && ce != NONE &&
+                          ob.unBegin > cb && ob.unEnd < ce;
+    if (inGlobal && ob.regEnd != NONE && ob.regEnd < cb)
+    {
+      if (!ob.unRet)
+        return fail("C02/unobserve-in-global-callback-refused",
+                    id + ": unobserve() called inside the global close callback of that session's close returned false although the "
+                         "observer was registered before the close began and had not been unobserved");
+      if (!ob.fired.empty())
+        return fail("C02/unobserved-observer-called/in-global-callback",
+                    id + " was invoked although unobserve() returned true inside the global close callback (observers run after it)");
+    }
     if (!ob.fired.empty())
     {
       if (ob.unEnd != NONE && ob.unRet && cb != NONE && ob.unEnd < cb)
